@@ -112,10 +112,16 @@ def r1(ctx: Ctx) -> None:
                 par = parents.get(id(node))
                 if sym == "id" and isinstance(par, ast.Compare) and all(isinstance(o, (ast.In, ast.NotIn, ast.Eq, ast.NotEq, ast.Is, ast.IsNot)) for o in par.ops):
                     sym = None  # identity test: the address is compared for equality only, its value never matters
+                elif sym == "id" and ((isinstance(par, ast.Subscript) and par.slice is node) or (isinstance(par, ast.Call) and isinstance(par.func, ast.Attribute) and par.func.attr in ("get", "pop", "setdefault") and par.args and par.args[0] is node)):
+                    f_ = enc.get(id(node))
+                    ctx.unrec(f_, node, f"id in {f_.qualname if f_ else mi.name}", "an address is used as the key of a table: the value of the address does not matter as long as an entry found under a reused address is recognised as stale, which is not decided here")
+                    sym = None
             elif isinstance(node.func, ast.Name) and node.func.id in DYNAMIC:
                 sym, why = node.func.id, "dynamic code / namespace access"
                 if sym in ("setattr", "getattr", "hasattr") and node.args and isinstance(node.args[0], ast.Name) and node.args[0].id == "self":
                     sym = None  # a field of the object itself, named by a value: no source of nondeterminism
+                if sym == "vars" and len(node.args) == 1:
+                    sym = None  # vars(x) is x.__dict__: the attributes of a given object, in definition order
             elif isinstance(node.func, ast.Name) and node.func.id == "open":
                 sym, why = "open", "file input"
             elif isinstance(node.func, ast.Attribute) and node.func.attr == "popitem":
@@ -345,6 +351,23 @@ def r3(ctx: Ctx) -> None:
                     ann = ast.unparse(par.annotation)
                     if ann.replace("typing.", "") in ("Set[int]", "Set[float]", "set[int]", "set[float]", "FrozenSet[int]"):
                         ok, how = True, "elements are numbers by annotation (hash independent of PYTHONHASHSEED)"
+            if not ok:
+                # a set placed in a container literal that is bound with an annotation naming its element type
+                up_ = par
+                nested = False
+                while isinstance(up_, (ast.Dict, ast.List, ast.Tuple)):
+                    nested = True
+                    up_ = parents.get(id(up_))
+                if nested and isinstance(up_, ast.AnnAssign):
+                    ann = ast.unparse(up_.annotation).replace("typing.", "")
+                    import re as _re
+
+                    inner = _re.findall(r"(?:Set|set|FrozenSet|frozenset)\[([^\]\[]*)\]", ann)
+                    if inner and all(x.strip() in ("int", "float", "bool") for x in inner):
+                        ok, how = True, "elements are numbers by annotation (hash independent of PYTHONHASHSEED)"
+                if not ok and nested:
+                    ctx.unrec(f, node, f"set constructed in {where}", "the set is stored inside another container; where it is iterated is not followed")
+                    continue
             if not ok and f is not None:
                 # hash-stable element types (int/float/bool): iteration order does not depend on the hash seed
                 env = ctx.cg.env(f)
@@ -376,7 +399,13 @@ def r4(ctx: Ctx) -> None:
                 if names == ["__all__"]:
                     continue
                 n += 1
-                ctx.violated(None, node, f"module-level mutable container {', '.join(names)} in {mi.name}", "no process-wide mutable state", ast.unparse(node.value)[:60])
+                use = _module_container_use(mi.tree, names[0]) if len(names) == 1 else "other"
+                if use == "constant":
+                    ctx.holds(None, node, f"module-level container {names[0]} in {mi.name} is never changed", "a table that is only read")
+                elif use == "memo":
+                    ctx.unrec(None, node, f"module-level mutable container {names[0]} in {mi.name}", "it is used as a keyed memo (entries looked up and stored under a key, never walked): whether an entry kept from an earlier run can change an outcome is not decided")
+                else:
+                    ctx.violated(None, node, f"module-level mutable container {', '.join(names)} in {mi.name}", "no process-wide mutable state", ast.unparse(node.value)[:60])
     for cname, ci in ctx.program.classes.items():
         n += 1
         bad = []
@@ -391,6 +420,59 @@ def r4(ctx: Ctx) -> None:
         bad = [ast.unparse(d)[:40] for d in list(a.defaults) + [d for d in a.kw_defaults if d is not None] if _mutable_literal(d)]
         if bad:
             ctx.violated(f, f.node, f"mutable default argument in {f.qualname}", "no state shared between calls", ", ".join(bad))
+
+
+def _module_container_use(tree: ast.Module, name: str) -> str:
+    """how a module-level container is used in its module: 'constant' (only read), 'memo' (entries are
+    stored and looked up under a key and the container is never walked, measured or handed on),
+    'other' (anything else: appended to, iterated, passed around)"""
+    parents: Dict[int, ast.AST] = {}
+    for n in ast.walk(tree):
+        for c in ast.iter_child_nodes(n):
+            parents[id(c)] = n
+    mutated = keyed_write = walked = escaped = False
+    for n in ast.walk(tree):
+        if not (isinstance(n, ast.Name) and n.id == name):
+            continue
+        par = parents.get(id(n))
+        if isinstance(n.ctx, ast.Store):
+            if isinstance(par, (ast.Assign, ast.AnnAssign)) and parents.get(id(par)) is tree:
+                continue  # the definition itself
+            escaped = True
+            continue
+        if isinstance(par, ast.Subscript) and par.value is n:
+            if isinstance(par.ctx, (ast.Store, ast.Del)):
+                keyed_write = True
+            continue
+        if isinstance(par, ast.Compare) and n in par.comparators and all(isinstance(o, (ast.In, ast.NotIn)) for o in par.ops):
+            continue
+        if isinstance(par, ast.Attribute) and par.value is n and isinstance(parents.get(id(par)), ast.Call):
+            m = par.attr
+            if m in ("get",):
+                continue
+            if m in ("setdefault", "pop", "clear", "__setitem__", "__delitem__"):
+                keyed_write = True
+                continue
+            if m in ("append", "extend", "add", "update", "insert", "remove", "discard", "sort", "reverse", "popitem"):
+                mutated = True
+                continue
+            if m in ("items", "values", "keys", "copy", "index", "count"):
+                walked = True
+                continue
+        if isinstance(par, (ast.For, ast.comprehension)) and getattr(par, "iter", None) is n:
+            walked = True
+            continue
+        if isinstance(par, ast.Call) and isinstance(par.func, ast.Name) and par.func.id in ("len", "sorted", "list", "tuple", "set", "sum", "min", "max", "any", "all") and n in par.args:
+            walked = True
+            continue
+        escaped = True
+    if mutated or (keyed_write and (walked or escaped)):
+        return "other"
+    if keyed_write:
+        return "memo"
+    if escaped:
+        return "other"
+    return "constant"
 
 
 def _mutable_literal(v: ast.AST) -> bool:
